@@ -357,11 +357,11 @@ class Multi:
                     o.tracker.stop_begin()
                 o.begin_op("stop", [("final",), ("erase",) if self.cfg["transient"] else ("freeze",)])
         finally:
-            if o.tracker:
-                o.tracker.stop_end()
             if self.sim.me().tid not in o.popped_by:
                 o.stages = []  # another thread had already stopped it
             o.end_op()
+            if o.tracker:
+                o.tracker.stop_end()
             self.started = False
             self.display_done = True
 
@@ -460,11 +460,11 @@ class Multi:
             try:
                 self.display.stop()
             finally:
-                if o.tracker:
-                    o.tracker.stop_end()
                 if self.sim.me().tid not in o.popped_by:
                     o.stages = []  # it was not running: a no-op
                 o.end_op()
+                if o.tracker:
+                    o.tracker.stop_end()
         elif k == "sleep":
             if o is not None:
                 o.begin_op(op, [])
